@@ -171,20 +171,20 @@ Fixpoint scan (items anc : list citem) (tail : ctail) (ts : list (arg * bool)) {
   | (_, true) :: rest => att_cons [RMark] [] [] (scan items anc tail rest)          (* `--` itself *)
   | (a, false) :: rest =>
     match a with
-    | Short _ adj _ | Long _ adj _ =>
+    | Short _ _ _ | Long _ _ _ =>
       if is_help a then ScUnspec
       else
         match find_owner items a O with
         | Some (k, it) =>
           if is_argument it then
             match rest with
-            | (ArgWord w, false) :: rest' =>
-              if adj then att_cons [RKey k; RVal k] [(k, Some w)] [] (scan items anc tail rest') else rej ts
+            | (ArgWord w, false) :: rest'                                          (* `--name=v`, `-n=v` *)
             | (Word w, false) :: rest' =>                                          (* `-n v` and `-nv` *)
               att_cons [RKey k; RVal k] [(k, Some w)] [] (scan items anc tail rest')
             | _ => rej ts
             end
-          else if adj then rej ts else att_cons [RKey k] [(k, None)] [] (scan items anc tail rest)
+          (* a flag takes its key and nothing else: the value of `--flag=v` is then a stray token *)
+          else att_cons [RKey k] [(k, None)] [] (scan items anc tail rest)
         | None =>
           match find_owner anc a O with
           | Some _ => ScUnspec            (* an enclosing level's option right of the subcommand name *)
@@ -402,4 +402,34 @@ Fixpoint chain_okb (l : level) : bool :=
     | TCmds _ => false
     | _ => flat_okb items tail
     end
+  end.
+
+(* whole trees: every level has at least one item; a level with subcommands offers one or more,
+   with pairwise different names; names are unique within a level and between a level and
+   everything below it *)
+Fixpoint cs_names (cs : clist) : list (list bytes) :=
+  match cs with CNil => [] | CCons name aliases _ rest => (name :: aliases) :: cs_names rest end.
+
+Fixpoint names_uniqueb (ts : list (list bytes)) : bool :=
+  match ts with
+  | [] => true
+  | x :: r => forallb (fun y => forallb (fun a => negb (mem_bytes a y)) x) r && names_uniqueb r
+  end.
+
+Fixpoint tree_okb (l : level) : bool :=
+  match l with
+  | Level items tail =>
+    match tail with
+    | TCmds cs =>
+      match cs with CNil => false | _ => true end &&
+      disjointb items && forallb (fun it => named_ok (item_named it)) items && Nat.leb 1 (length items) &&
+      tree_okb_cs cs && names_uniqueb (cs_names cs) &&
+      forallb (fun it => forallb (fun it' => negb (share (item_named it) (item_named it'))) (all_items_cs cs)) items
+    | _ => flat_okb items tail
+    end
+  end
+with tree_okb_cs (cs : clist) : bool :=
+  match cs with
+  | CNil => true
+  | CCons _ _ sub rest => tree_okb sub && tree_okb_cs rest
   end.
